@@ -63,8 +63,9 @@ type run struct {
 	pc      []*Term
 	facts   map[string]string
 
-	steps int
-	depth int
+	steps  int
+	depth  int
+	merges int
 
 	obligs       []obligRec
 	covers       map[string]bool
